@@ -228,6 +228,7 @@ package meta
 //@   ensures rejected_changes_nothing: result != nil ==> fsm.data == old(fsm.data)
 //@   call Data.CreateMetaNode#1 requires runs_on_private_copy: fresh(other)
 //@   call Data.setDataNode#1 requires runs_on_private_copy: fresh(other)
+//@   call Data.CreateDataNode#1 assume_callee_requires
 //@   call Data.CreateDataNode#1 requires runs_on_private_copy: fresh(other)
 
 //@ func (*storeFSM).applyUpdateNodeCommand
@@ -464,6 +465,7 @@ package meta
 //@   holds fsm.mu
 //@   at after proto.GetExtension#1: assume typeis(callresult0, "*metapb.CreateDataNodeCommand") && ival(callresult0) != 0
 //@   ensures rejected_changes_nothing: result != nil ==> fsm.data == old(fsm.data)
+//@   call Data.CreateDataNode#1 assume_callee_requires
 //@   call Data.CreateDataNode#1 requires runs_on_private_copy: fresh(other)
 
 //@ func (*storeFSM).applyDeleteDataNodeCommand
@@ -476,10 +478,6 @@ package meta
 
 // Data's mutators cannot reach the store (Data holds no pointer to it): assumed frame, bodies unverified here.
 //@ func (*Data).CreateContinuousQuery
-//@   assumed
-//@   modifies *except storeFSM.all store.all
-
-//@ func (*Data).CreateDataNode
 //@   assumed
 //@   modifies *except storeFSM.all store.all
 
@@ -915,3 +913,14 @@ package meta
 //@ func (DatabaseInfo).RetentionPolicy
 //@   assumed
 //@   modifies nothing
+
+// ---- C06: a data node is created only under a TCP address no data node has yet ----
+// The node id is taken from a meta node with the same TCP address (a combined meta + data process) or freshly
+// allocated; a second data node under an address already in use would be given the same id, and shards would get
+// the "two" nodes as their distinct owners.
+//@ func (*Data).CreateDataNode
+//@   props C06
+//@   nosafety
+//@   modifies *except storeFSM.all store.all
+//@   loop 1 invariant no_data_node_with_this_tcp_address_so_far: all(i, 0, rangeindex + 1, data.DataNodes[i].TCPAddr != tcpAddr)
+//@   call append#1 requires appended_only_if_the_tcp_address_is_new: all(i, 0, len(data.DataNodes), data.DataNodes[i].TCPAddr != tcpAddr)
